@@ -277,8 +277,8 @@ CLAIMED['C38'] = dict(
     category='proof',
     text="Contracts (CBMC DFCC) on the extracted bodies of SmallVector: the representation accessors isInline, rawSize, data, capacity, setSize are proved for all states (heap bit / size mask "
          "arithmetic, no bound); every operation that walks or relocates elements - emplace_back (both push_back forms), pop_back, resize x2, erase, clear, reserve, ensureCapacity, growToHeap, "
-         "relocateToHeap, destroyAll, the destructor, the move constructor, move assignment, copy construction and copy assignment - is checked against its contract with the element loops unwound for vectors of at most 4 elements; SmallVector(count) and SmallVector(count, value) are proved without a bound through the contract of resize (BOUNDED "
-         "stand-ins, listed under `bounded` in the evidence and never counted as proved). Obligations at every element access: storage not released, index inside the allocation, storage "
+         "relocateToHeap, destroyAll, the destructor, the move constructor, move assignment, copy construction and copy assignment - is checked against its contract with the element loops unwound for vectors of at most 4 elements (BOUNDED "
+         "stand-ins, listed under `bounded` in the evidence and never counted as proved); SmallVector(count) and SmallVector(count, value) are proved without a bound through the contract of resize. Obligations at every element access: storage not released, index inside the allocation, storage "
          "aligned for T (inline buffer alignas(T); heap block from ::operator new only if alignof(T) <= alignof(max_align_t), otherwise alignedMalloc, released by the matching function); "
          "construct/destroy balance equals the change of size(); heap storage released exactly once and only when empty; an argument that refers to an element of the vector itself is read "
          "before the storage it lives in is vacated (v.push_back(v[0]), v.resize(n, v[0])); sizes and capacities after each operation are std::vector's.",
